@@ -4,13 +4,18 @@
  * completion callback), scheduling.c (parsec_context_add_taskpool,
  * parsec_taskpool_termination_detected) and termdet_local_module.c (the
  * detector add_taskpool installs when the DSL installed none).
- * n member taskpools (n symbolic, 2..NMAX, covering the realloc at 16) are
+ * N member taskpools (N enumerated by spec.py: with a symbolic N the member
+ * pointers read back from the compound's array are symbolic and CBMC's
+ * unfolding of the completion recursion explodes — no verdict in 900 s) are
  * composed with the real parsec_compose and the compound is submitted with the
  * real parsec_context_add_taskpool, exactly as tests/api/compose.c does.  A
  * member is a taskpool whose DSL holds ONE pending action "for all local tasks"
  * (as map_operator / PTG taskpools do) and releases it when its last task
  * completed: the harness plays that release (the only thing that can make a
  * member terminate) for the members in the only order the real code enables.
+ * Symbolic: which members are EMPTY (no local task on this process: no pending
+ * action held, they terminate the moment they are enqueued, inside
+ * parsec_context_add_taskpool, and the chain must run through them).
  * Oracle: member i+1 is enqueued only inside the completion of member i (never
  * before every task of member i is done), each member is enqueued exactly
  * once, in composition order; the compound's completion callback runs exactly
@@ -22,8 +27,12 @@
 #include "parsec/compound.c"
 #include "parsec/mca/termdet/local/termdet_local_module.c"
 
-#ifndef NMAX
-#define NMAX 20
+#ifndef N
+#define N 4
+#endif
+#define NMAX N
+#ifndef SYMEMPTY
+#define SYMEMPTY 1
 #endif
 
 /* ---- stubs (not under test) ---- */
@@ -37,20 +46,37 @@ static parsec_sched_module_t stub_sched;
 parsec_execution_stream_t *parsec_my_execution_stream(void){ return &es0; }
 
 static parsec_taskpool_t member[NMAX];
-static int n;
+static const int n = N;
+static int empty[NMAX];       /* symbolic: member i has no local task */
 static int enq_count[NMAX];       /* ghost: how often member i was enqueued */
 static int enq_seq[NMAX];         /* ghost: stamp of the enqueue of member i */
 static int done_seq[NMAX];        /* ghost: stamp of "last task of member i completed" */
 static int stamp;
 static int compound_cb, compound_cb_stamp;
 
+extern int vp_destroyed;
 static int idx_of(parsec_taskpool_t *tp){ for(int i = 0; i < NMAX; i++) if(tp == &member[i]) return i; return -1; }
-static int on_enqueue(parsec_taskpool_t *tp, void *d){ (void)d; int i = idx_of(tp); VASSERTM(i >= 0 && i < n, "only composed members are enqueued"); enq_count[i]++; enq_seq[i] = ++stamp; return 0; }
+static int running = -1;          /* ghost: the non-empty member whose tasks are running, -1 none */
+static int done[NMAX];            /* ghost: every task of member i completed */
+static int on_enqueue(parsec_taskpool_t *tp, void *d)
+{
+    (void)d; int i = idx_of(tp);
+    VASSERTM(i >= 0 && i < n, "only composed members are enqueued");
+    enq_count[i]++; enq_seq[i] = ++stamp;
+    if(!empty[i]) {       /* its tasks may start from now on */
+        VASSERTM(running == -1, "a member is enqueued only when no other member has unfinished tasks");
+        for(int j = 0; j < NMAX; j++) if(j < i) VASSERTM(empty[j] || done[j], "a member is enqueued only after every task of all earlier members completed");
+        running = i;
+    }
+    return 0;
+}
 static int on_compound_complete(parsec_taskpool_t *tp, void *d){ (void)tp; (void)d; compound_cb++; compound_cb_stamp = ++stamp; return 0; }
 
 int main(void)
 {
-    n = IN_RANGE(2, NMAX);
+    int nempty = 0;
+    for(int i = 0; i < N; i++) { empty[i] = SYMEMPTY ? IN_BOOL() : 0; nempty += empty[i]; }
+    int spare = IN_INT(); (void)spare;
     /* minimal context: one VP, one stream, the context's taskpool list, a scheduler already selected */
     PARSEC_OBJ_CONSTRUCT(&tplist, parsec_list_t);
     ctx.nb_vp = 1; ctx.virtual_processes[0] = &vp0; ctx.taskpool_list = &tplist; vp0.parsec_context = &ctx; es0.virtual_process = &vp0;
@@ -61,7 +87,7 @@ int main(void)
     for(int i = 0; i < NMAX; i++) if(i < n) {
         PARSEC_OBJ_CONSTRUCT(&member[i], parsec_taskpool_t);
         member[i].taskpool_id = 100 + i;
-        member[i].nb_pending_actions = 1;            /* the DSL's hold "for all local tasks" */
+        member[i].nb_pending_actions = empty[i] ? 0 : 1;   /* the DSL's hold "for all local tasks" */
         member[i].on_enqueue = on_enqueue;
         comp = parsec_compose(comp, &member[i]);
     }
@@ -74,37 +100,53 @@ int main(void)
 
     parsec_context_add_taskpool(&ctx, comp);
 #ifndef KF_EXCLUDE_C15_COMPOUND_COMPLETES_AT_ADD
-    VASSERTM(compound_cb == 0, "compound not reported complete when it is submitted (no member has run yet)");
+    if(nempty < N) VASSERTM(compound_cb == 0, "compound not reported complete when it is submitted (a member still has all its tasks to run)");
 #endif
 #ifdef KF_ONLY_C15_COMPOUND_COMPLETES_AT_ADD
     return 0;
 #endif
     VASSERTM(enq_count[0] == 1, "first member enqueued by the compound's start-up");
-    for(int i = 1; i < NMAX; i++) if(i < n) VASSERTM(enq_count[i] == 0, "no later member enqueued at start-up");
-
-    for(int i = 0; i < NMAX; i++) if(i < n) {
+    /* ghost reference: 'front' = first member that still holds its pending action */
+    int front = 0; while(front < N && empty[front]) front++;
+    for(int i = 0; i < N; i++) {
+        if(i <= front) VASSERTM(enq_count[i] == 1, "every member up to the first non-empty one is enqueued exactly once");
+        else           VASSERTM(enq_count[i] == 0, "no member behind a running member is enqueued");
+    }
+    for(int i = 0; i < N; i++) if(!empty[i]) {
         /* the last task of member i completes: the DSL releases its pending action */
-        VASSERTM(enq_count[i] == 1, "member i is running (enqueued exactly once) when its tasks complete");
-        if(i + 1 < n) VASSERTM(enq_count[i+1] == 0, "member i+1 not enqueued before every task of member i completed");
-        done_seq[i] = ++stamp;
+        VASSERTM(front == i && enq_count[i] == 1, "member i is the running one (enqueued exactly once) when its tasks complete");
+        if(i + 1 < N) VASSERTM(enq_count[i+1] == 0, "member i+1 not enqueued before every task of member i completed");
+#ifndef KF_EXCLUDE_C15_COMPOUND_COMPLETES_AT_ADD
+        VASSERTM(compound_cb == 0, "compound not complete while a member is running");
+#endif
+        VASSERTM(running == i, "member i is the running one");
+        done_seq[i] = ++stamp; done[i] = 1; running = -1;
         member[i].tdm.module->taskpool_addto_runtime_actions(&member[i], -1);
         VASSERTM(member[i].tdm.module->taskpool_state(&member[i]) == PARSEC_TERM_TP_TERMINATED, "member terminated");
-        if(i + 1 < n) {
-            VASSERTM(enq_count[i+1] == 1 && enq_seq[i+1] > done_seq[i], "member i+1 enqueued inside the completion of member i");
-#ifndef KF_EXCLUDE_C15_COMPOUND_COMPLETES_AT_ADD
-            VASSERTM(compound_cb == 0, "compound not complete while members remain");
-#endif
+        front = i + 1; while(front < N && empty[front]) front++;
+        for(int j = i + 1; j < N; j++) {
+            if(j <= front) VASSERTM(enq_count[j] == 1 && enq_seq[j] > done_seq[i], "next members enqueued once, inside the completion of member i");
+            else           VASSERTM(enq_count[j] == 0, "no member behind the new running member is enqueued");
         }
     }
+    VASSERTM(front == N && running == -1, "chain ran to the end");
+    for(int i = 0; i < N; i++) VASSERTM(member[i].tdm.module->taskpool_state(&member[i]) == PARSEC_TERM_TP_TERMINATED && enq_count[i] == 1, "every member ran exactly once and terminated");
 #ifndef KF_EXCLUDE_C15_COMPOUND_COMPLETES_AT_ADD
-    VASSERTM(compound_cb == 1 && compound_cb_stamp > done_seq[n-1], "compound completion callback runs exactly once, after the last member");
+    int lastne = -1; for(int i = 0; i < N; i++) if(!empty[i]) lastne = i;
+    VASSERTM(compound_cb == 1, "compound completion callback runs exactly once");
+    if(lastne >= 0) VASSERTM(compound_cb_stamp > done_seq[lastne], "compound completes after every task of the last member completed");
 #else
     VASSERTM(compound_cb == 1, "compound completion callback runs exactly once");
 #endif
     VASSERTM(c->completed_taskpools == (uint32_t)n, "every member accounted");
     VASSERTM(comp->nb_pending_actions == 0, "compound's pending actions are zero at the end");
     VASSERTM(ctx.active_taskpools == 0, "context accounting balanced: active_taskpools back to its initial value");
-    if(n >= 17) VWITNESS("composition past the realloc at 16");
-    if(n == 2) VWITNESS("two members");
+    VASSERTM(vp_destroyed == 0, "no taskpool destroyed while the user holds its reference");
+    if(nempty == 0) VWITNESS("all members have tasks");
+#if SYMEMPTY
+    if(!empty[0] && empty[N-1]) VWITNESS("empty last member");
+    if(empty[0] && !empty[N-1]) VWITNESS("empty first member");
+    if(nempty == N) VWITNESS("all members empty");
+#endif
     return 0;
 }
